@@ -34,7 +34,7 @@ for name in sorted(os.listdir(root)):
         'summary': am.get('summary', ''),
         'needs_to_manifest': am.get('needs', ''),
         'files_touched': files,
-        'origin': 'proposed by a sub-agent that saw only the property text and a scratch worktree',
+        'origin': 'proposed by a sub-agent that saw only the property text and a scratch worktree' + (' (second round: it was also told the summaries of the first three changes, to avoid repeats)' if int(name.split('-')[1]) > 3 else ''),
         'confirmed': {
             'how': 'tools/confirm_mutant.sh in a scratch worktree under /tmp/mut: git apply; pinned test suite (default features); cargo build --features alpha,llvm-sys; `penne run` of every demo/*.pn with the pristine and the changed binary',
             'pinned_tests': '%s/%s' % (tests.group(1), tests.group(2)) if tests else None,
